@@ -41,5 +41,5 @@ META = {
             "keeps the VMF vector layout consistent. Accuracy (error order), norm/energy conservation values and agreement with the chain code are not decided.",
     "note": "The backward half-sweep of the one-site scheme visits children in the same order as the forward half (not mirrored); this affects only the order of the "
             "splitting error at truncated bond dimension, which the property does not constrain, and is reported as a note.",
-    "design_ref": "DESIGN.md 3.3, 3.4, 4 (C12)",
+    "design_ref": "DESIGN.md 3.3, 3.4, 4 (C12); as built: 9.1, 9.3, 9.8",
 }
